@@ -1072,6 +1072,9 @@ impl Server {
                 // CopyInResponse: copy is starting from client to server.
                 'G' => {
                     self.in_copy_mode = true;
+                    // The server waits for the client's CopyData now, there is nothing more to
+                    // read even if an earlier statement of the same query returned rows.
+                    self.data_available = false;
                     break;
                 }
 
